@@ -1,6 +1,7 @@
 //! kvh — verification harness driving the real KyroDB engine code in-process.
 mod proto;
 mod qcache;
+mod store;
 mod tiered;
 
 fn main() {
@@ -8,6 +9,7 @@ fn main() {
     match args.get(1).map(|s| s.as_str()) {
         Some("tiered") => tiered::run(),
         Some("qcache") => qcache::run(),
+        Some("store") => store::run(),
         _ => {
             eprintln!("usage: kvh <engine>");
             std::process::exit(2);
